@@ -18,4 +18,5 @@ def run(ctx):
     n = 400000 if ctx.thorough else 40000
     rnd = [("rnd-plain", n, ["req=0:3115b50900", "req=0:3115b50900", "buslost=2"]),
            ("rnd-enh", n, ["enhanced=1", "req=0:3115b50900", "req=0:3115b50900", "buslost=2"])]
-    pc.run_configs(ctx, "C02", "s", THOROUGH if ctx.thorough else QUICK, random_runs=rnd)
+    pc.run_configs(ctx, "C02", "s", THOROUGH if ctx.thorough else QUICK, random_runs=rnd,
+                   spec_fidelity=[("S:ms-2esc", ["req=0:3115b50902a9aa", "submit=1", "qq=", "nn=0", "snn=1", "data=42,a9"], 16)], spec_mc=ctx.thorough)
